@@ -522,7 +522,7 @@ struct PlannedMsg {
 void execute_c05(const Plan &plan, Verdict &v) {
     WorldCfg cfg;
     cfg.queue = (int) clampl(plan.k("queue", 8), 1, 16);
-    cfg.inbuf = (int) clampl(plan.k("inbuf", 1024), 256, 2048);
+    cfg.inbuf = (int) clampl(plan.k("inbuf", 1024), 256, 120000);
     World w(cfg);
     PRun run{w, v, {}, {}, false};
     // ---- decode the plan
@@ -558,6 +558,24 @@ void execute_c05(const Plan &plan, Verdict &v) {
             it.ws_after = (int) clampl(op.arg(2), 0, 3);
             it.lit = op.s;
             run.units.back().items.push_back(it);
+        } else if (op.kind == "pbig" && in_msg && !run.units.empty()) {
+            // a block item of more than 65535 bytes, generated from a content seed (no terminator bytes inside, see is_blk)
+            size_t blen = (size_t) clampl(op.arg(0), 1, 100000);
+            uint64_t x = (uint64_t) op.arg(1);
+            std::string body;
+            body.reserve(blen);
+            for (size_t k = 0; k < blen; k++) {
+                x = mix64(x);
+                char c = (char) (x & 0xff);
+                if (c == '\n' || c == '\r') c = '.';
+                body += c;
+            }
+            std::string len = std::to_string(blen);
+            Item it;
+            it.cls = C_BLK;
+            it.lit = "#" + std::to_string(len.size()) + len + body;
+            run.units.back().items.push_back(it);
+            COUNT("probe_block_item_of_64k_or_more");
         } else if (op.kind == "bad" && in_msg && op.has_s && !run.units.empty()) {
             run.units.back().bad = op.s;
         } else if (op.kind == "endmsg") {
@@ -859,6 +877,20 @@ void generate_c05(Rng &r, const GenOpts &g, Plan &p) {
     bool avoid_trailing = g.avoids("trailing_comma");
     bool avoid_number_type = g.avoids("number_wrong_type");
     p.knob["queue"] = r.range(1, 8);
+    if (r.chance(1, 3000)) {
+        // one unit with a block parameter beyond 16-bit lengths
+        long blen = r.chance(1, 2) ? 65536 + r.range(-2, 30) : r.range(40000, 90000);
+        p.knob["inbuf"] = blen + 400;
+        int rd = (r.chance(1, 3) ? R_BLOCK : (r.chance(1, 2) ? R_CHARS : R_RAW));
+        p.ops.push_back(Op("h", {0, -222}));
+        p.ops.push_back(Op("rd", {rd, 1}));
+        if (r.chance(1, 2)) p.ops.push_back(Op("rd", {R_I32, 1}));
+        p.ops.push_back(Op("u", {0, 0}));
+        p.ops.push_back(Op("pbig", {blen, (long) r.below(1000000)}));
+        if (r.chance(1, 2)) p.ops.push_back(Op("p", {C_DEC, 0, 0}, "7"));
+        p.ops.push_back(Op("endmsg", {(long) r.below(3)}));
+        return;
+    }
     long nh = r.range(1, 4);
     std::vector<std::vector<ReaderStep>> sigs;
     for (long h = 0; h < nh; h++) {
@@ -946,7 +978,7 @@ const Property C05 = {
     generate_c05,
     execute_c05,
     {"probe_absent_mandatory", "probe_absent_optional", "probe_surplus_parameters", "probe_silent_handler_failure", "probe_blank_before_comma", "probe_malformed_list",
-     "probe_several_messages_in_one_call", "fault_handler_fails_silently", "fault_error_pushed_by_handler", "probe_handler_pushes_status_event_code", "probe_null_callback_unit", "probe_trailing_blanks"},
+     "probe_several_messages_in_one_call", "fault_handler_fails_silently", "fault_error_pushed_by_handler", "probe_handler_pushes_status_event_code", "probe_null_callback_unit", "probe_trailing_blanks", "probe_block_item_of_64k_or_more"},
     "1..3 input calls of 1..3 messages of 1..4 units; every unit pairs one of 1..4 seeded handler signatures (0..4 steps drawn from 15 readers incl. arrays, mandatory/"
     "optional, four return policies) with a list of 0..5 items whose class and value are known by construction (DEC incl. .5 forms, DEC+suffix known/unknown, #H/#Q/#B, "
     "mnemonics in/outside the bool/choice/special lists, both quote styles, blocks, expressions), blanks on either side of commas, malformed fragments on the last unit; "
